@@ -22,7 +22,6 @@ KINDS = ["safe.nil","site","post","pre","monitor","inv.entry","inv.preserve","in
 ELSEWHERE = [
  (r'^monitor:\(\*protocol/xpush\.socket\)\.SetOption:unlock:s\.Mutex:socket\.inv1#4$', 'C02', 'recorded as a known finding under C02 (PUSH accepts WriteQLen 0); not reported a second time here'),
  (r'^lock\.block:\(\*protocol/sub\.context\)\.(unsubscribe:block:send:c\.recvQ|SetOption:block:call:unsubscribe)$', 'C11', 'non-blocking only by a count argument over channel contents, which the channel model cannot express (listed with this reason under C11)'),
- (r'^lock\.block:\(\*protocol/sub\.pipe\)\.receiver:block:send:', 'C11', 'send under the socket lock after making room: needs channel-content reasoning (listed with this reason under C11)'),
  (r'^lock\.block:\(\*protocol/xpush\.socket\)\.sender:block:recv:s\.sendQ$', 'C11', 'receive under the lock guarded by len(sendQ) != 0: needs channel-content reasoning (listed with this reason under C11)'),
  (r'^site:\(\*protocol/xbus\.pipe\)\.receiver:at:call:Close#1:1$', 'C08,C19', 'recorded as a known finding under C08 and C19 (raw BUS receiver leaves its loop on a queue resize); not reported a second time here'),
 ]
